@@ -652,9 +652,7 @@ class ExcludeRegionState(object):  # pylint: disable=too-many-instance-attribute
             these commands are sent to the printer.
         """
         isDebug = self._logger.isEnabledFor(logging.DEBUG)
-        startPosition = None
-        if (isDebug):
-            startPosition = Position(self.position)
+        startPosition = Position(self.position)
 
         eAxis = self.position.E_AXIS
         priorE = eAxis.current
@@ -701,7 +699,12 @@ class ExcludeRegionState(object):  # pylint: disable=too-many-instance-attribute
             # for Marlin 1.1.9).
             returnCommands = self._processNonMove(cmd, deltaE)
         elif (self.isAnyPointExcluded(*xyPairs)):
+            wasExcluding = self.excluding
             returnCommands = self._processExcludedMove(cmd, deltaE)
+            if (self.excluding and not wasExcluding):
+                # This move is not executed by the printer, so the tool physically remains at the
+                # position it had before this move (not at the already updated position).
+                self.lastPosition = startPosition
         elif (self.excluding):
             # Moving from an excluded region into a non-excluded region.
             # Processes the necessary commands to move the tool to the new position specified by the
